@@ -97,9 +97,10 @@ class SimClock:
 def serial_for(variant, pad='3CJ'):
     """The mis-encoded UTF-16 form that dfu.py's GD32 quirk code undoes."""
     true_sn = pad[0] + pad[1] + variant + pad[2:]
-    if len(true_sn) % 2:
-        true_sn += 'X'
-    return true_sn.encode('ascii').decode('utf-16-le')
+    raw = true_sn.encode('utf-8')
+    if len(raw) % 2:
+        raw += b'X'
+    return raw.decode('utf-16-le')
 
 
 class SimDfuSe:
